@@ -52,8 +52,9 @@ CHECKS = {
         "circuit.py model, plus policy level (C07_policy_open_rejects, C07_policy_rejected_call on Policy.v); correspondence on "
         "open/half-open-cycle breaker histories (random + exhaustive small scope; disagreements that start while OPEN/HALF_OPEN are "
         "attributed to C07) and on policy call sequences (projection: admissions, invocations, records). Two known findings "
-        "(records issued by a call that is not the probe) are kept with _refuted theorems and replayed on every run. Interleavings of "
-        "concurrent async calls are not a theorem.",
+        "(records issued by a call that is not the probe) are kept with _refuted theorems and replayed on every run. Interleavings of concurrent calls: "
+        "C07_single_probe_interleaved (all Admit/Settle histories excluding exactly those two kinds of record) is a theorem about "
+        "the model; interleaved coroutines are not exercised by the correspondence (calls are sequential there).",
         "Trusted: as C06; policy-level part additionally trusts the scripted-world harness and hand-driven coroutines.",
         "DESIGN.md §5 C07",
     ),
